@@ -34,6 +34,7 @@ known('F5b', 'C10', ['C10.event_incomplete', 'C10.result_left_nonterminal', 'C10
 known('F5b', 'C01', ['C01.missing', 'C01.hang'], F5b + ' and its remaining handlers never run', '')
 known('F5b', 'C03', ['C03.hang', 'C03.descendant_incomplete'], F5b + ', awaiting it hangs', '')
 known('F5b', 'C04', ['C04.child_incomplete_at_return', 'C04.descendant_incomplete', 'C04.hang', 'C04.released_only_by_timeout'], F5b + '; an in-handler await of it returns it incomplete', '')
+known('F5b', 'C14', ['C14.accepted_missing', 'C14.hang', 'C14.parent_never_completes'], F5b + ' and its remaining handlers never run', '')
 known('F5b', 'C15', ['C15.hang'], F5b + ' and stays started in history, wait_until_idle never returns', '')
 fixed('F9', 'C09', ['C09.event_bus'], '27bab07', 'event.event_bus returned the last bus of event_path, wrong for handlers that run after the event was forwarded')
 F11 = 'an in-flight (started) parent is evicted from a small history while its children outnumber max_history_size; upward completion cannot find it'
@@ -66,6 +67,7 @@ fixed('F10', 'C16', ['C16.handler_after_stop'], '2d7c9ce', 'backlog of a stopped
 fixed('F19', 'C16', ['C16.task_survives_cancel', 'C16.cancelled_runloop_not_done'], '770e78d', 'cancel landing while execute_handler awaited its monitor task was swallowed; run loop survived asyncio.run() exit')
 fixed('F13', 'C20', ['C20.runtime_error', 'C20.probe_error'], '8ad1a87', '@retry semaphore contended in one event loop raised RuntimeError (bound to a different event loop) in every later loop')
 fixed('F22', 'C11', ['C11.accessor_raised', 'C11.accessor_raised_without_error', 'C11.accessor_wrong_exception'], '6eaa59a', 'result accessors crashed with RuntimeError(dictionary changed size during iteration) when a forwarded-to bus added results while they waited')
+fixed('F24', 'C11', ['C11.not_same_exception', 'C11.C01_missing', 'C11.accessor_wrong_exception'], 'ec9e966', 'a TimeoutError raised by the handler itself was treated as the event timeout: exception object replaced, child results cancelled')
 fixed('F17', 'C15', ['C15.not_idle_at_return'], '67ce4a2', 'wait_until_idle returned with a forwarded event still queued')
 fixed('F18', 'C09', ['C09.children_attribution'], 'f319433', 'child dispatched to two buses by one handler was listed twice in event_children')
 with open('/verif/KNOWN_FINDINGS.jsonl', 'w') as f:
